@@ -317,23 +317,87 @@ fn pos_bucket(pos: Option<usize>, n: usize) -> &'static str {
 }
 
 /// Execute a history against twin sessions. Returns the literal steps executed.
+/// Options of one history execution (recorded in the trace's `config`).
+#[derive(Clone, Copy, Debug, Default)]
+pub struct HistOpts {
+    pub light: bool,
+    /// A and B are built from scratch, independently of each other and of the worker's cached
+    /// base context (immune to state that `Context::clone` might share)
+    pub fresh: bool,
+    /// the CLI's "load units::currencies on demand" switch is on (by-design exception: a failing
+    /// input that triggered the load leaves the module loaded; the reference is told so)
+    pub currency: bool,
+}
+
+/// Identifiers that trigger on-demand loading: unit names and aliases of units::currencies
+/// (same extraction as numbat/build.rs, done by the harness on the module file).
+pub fn currency_identifiers() -> Vec<String> {
+    let path = format!("{}/units/currencies.nbt", crate::sess::modules_dir());
+    let mut out = vec![];
+    for line in std::fs::read_to_string(path).unwrap_or_default().lines() {
+        let line = line.trim();
+        if let Some(rest) = line.strip_prefix("@aliases(") {
+            let inner = rest.split(')').next().unwrap_or("");
+            for a in inner.split(',') {
+                out.push(a.split(':').next().unwrap_or("").trim().to_string());
+            }
+        } else if let Some(rest) = line.strip_prefix("unit ") {
+            out.push(rest.split(':').next().unwrap_or("").trim().to_string());
+        }
+    }
+    out.retain(|s| !s.is_empty());
+    out
+}
+
+fn mentions_currency(text: &str, ids: &[String]) -> bool {
+    // token-wise for alphanumeric identifiers, substring for symbols such as $ or £
+    let toks = crate::oracle::identifiers_in(text);
+    ids.iter().any(|c| {
+        if c.chars().all(|ch| ch.is_alphanumeric() || ch == '_') {
+            toks.iter().any(|t| t == c)
+        } else {
+            text.contains(c.as_str())
+        }
+    })
+}
+
+const CURRENCY_PROBE: &str = "USD";
+
+/// Bring a reference session to the state the by-design exception allows: the currency module
+/// is loaded and on-demand loading is switched off (as `interpret_with_settings` does).
+fn apply_currency_load(s: &mut Sess) -> bool {
+    let o = s.submit("use units::currencies");
+    s.ctx.load_currency_module_on_demand(false);
+    o.is_ok()
+}
+
 pub fn exec_history(
     w: &mut SessWorker,
-    light: bool,
+    opts: HistOpts,
     src: &mut dyn StepSource,
     res: &mut ExecResult,
 ) -> Vec<Step> {
-    let base = match w.base(light) {
-        Ok(b) => b,
+    let light = opts.light;
+    let built = if opts.fresh {
+        w.importer.reset_run();
+        w.fresh_base(light).and_then(|a| w.fresh_base(light).map(|b| (a, b)))
+    } else {
+        w.base(light).map(|b| (b.clone(), b))
+    };
+    let (mut a, mut b) = match built {
+        Ok(x) => x,
         Err(e) => {
             res.harness_error = Some(e);
             return vec![];
         }
     };
+    if opts.currency {
+        a.ctx.load_currency_module_on_demand(true);
+        b.ctx.load_currency_module_on_demand(true);
+    }
+    let currency_ids = if opts.currency { currency_identifiers() } else { vec![] };
     let importer = w.importer.clone();
-    let base_names = base.names();
-    let mut a = base.clone();
-    let mut b = base;
+    let base_names = b.names();
     let mut probes = ProbeSet::default();
     let mut executed: Vec<Step> = vec![];
     let mut fp = Fnv::default();
@@ -356,7 +420,7 @@ pub fn exec_history(
                 probes.exprs.push(p.clone());
             }
         }
-        let pre = a.clone();
+        let mut pre = a.clone();
 
         importer.set_tag("A");
         let log0 = importer.log_len();
@@ -409,6 +473,35 @@ pub fn exec_history(
         }
 
         let failed = !oa.is_ok();
+        if opts.currency && failed {
+            // By-design exception (lib.rs, on-demand branch): an input whose type check stumbled
+            // over a currency identifier loads units::currencies and is then tried again; if it
+            // still fails the module stays loaded. The reference learns this from its own trial
+            // (never from A), is brought to "module loaded, on-demand off", and the trigger is
+            // checked independently: the input must mention a currency identifier.
+            let had = b.names().contains(CURRENCY_PROBE);
+            let trial_loaded = bt.names().contains(CURRENCY_PROBE);
+            if !had && trial_loaded {
+                res.bump("probe.currency_loaded_by_failing_input");
+                if !mentions_currency(&step.text, &currency_ids) {
+                    res.fail(
+                        "currency-load-unwarranted",
+                        format!(
+                            "failing input {k} `{}` loaded units::currencies although it mentions no currency identifier",
+                            step.text.replace('\n', " ⏎ ")
+                        ),
+                    );
+                    break;
+                }
+                if !apply_currency_load(&mut b) || !apply_currency_load(&mut pre) {
+                    res.harness_error = Some("reference could not load units::currencies".into());
+                    break;
+                }
+            }
+        }
+        if opts.currency && !failed && mentions_currency(&step.text, &currency_ids) {
+            res.bump("probe.currency_input_succeeded");
+        }
         let label_fault = step.label != "ok";
         if failed != label_fault {
             res.bump("label_mismatch");
@@ -587,11 +680,11 @@ pub fn exec_history(
     executed
 }
 
-pub fn trace_json(prop: &str, light: bool, faults: bool, steps: &[Step]) -> Value {
+pub fn trace_json(prop: &str, opts: HistOpts, faults: bool, steps: &[Step]) -> Value {
     json!({
         "format": 1,
         "property": prop,
-        "config": {"base": if light {"light"} else {"prelude"}, "faults": faults, "exchange_rates": "test", "step_budget": crate::sess::STEP_BUDGET},
+        "config": {"base": if opts.light {"light"} else {"prelude"}, "fresh": opts.fresh, "currency_on_demand": opts.currency, "faults": faults, "exchange_rates": "test", "step_budget": crate::sess::STEP_BUDGET},
         "steps": steps.iter().map(|s| s.to_json()).collect::<Vec<_>>(),
     })
 }
@@ -708,10 +801,16 @@ impl Prop for C06 {
         let mut rng = Rng::new(seed);
         // sub-batches: 1 run in 8 is fault-free (the relaxation-free control configuration)
         let faults = run % 8 != 7;
-        let light = rng.chance(0.5);
+        // sub-batches: 1 run in 16 with the CLI's currency on-demand loading switched on (prelude
+        // base), 1 run in 16 with both sessions built from scratch
+        let currency = run % 16 == 5;
+        let fresh = run % 16 == 11;
+        let light = rng.chance(0.5) && !currency;
+        let opts = HistOpts { light, fresh, currency };
         let real = w.real_modules(light);
         let mut cfg = Gen::swarm_cfg(&mut rng, faults, real);
         cfg.light_base = light;
+        cfg.currency = currency;
         let n_inputs = rng.range(4, 40) as usize;
         let generator = Gen::new(rng.fork(), cfg);
         let mut src = GenSource {
@@ -720,11 +819,21 @@ impl Prop for C06 {
         };
         let mut res = ExecResult::default();
         res.bump(if faults { "runs.fault-injecting" } else { "runs.fault-free" });
-        let steps = exec_history(w, light, &mut src, &mut res);
-        (trace_json("C06", light, faults, &steps), res)
+        if currency {
+            res.bump("runs.currency-on-demand");
+        }
+        if fresh {
+            res.bump("runs.from-scratch-sessions");
+        }
+        let steps = exec_history(w, opts, &mut src, &mut res);
+        (trace_json("C06", opts, faults, &steps), res)
     }
     fn exec(&self, w: &mut SessWorker, trace: &Value) -> ExecResult {
-        let light = trace["config"]["base"].as_str() == Some("light");
+        let opts = HistOpts {
+            light: trace["config"]["base"].as_str() == Some("light"),
+            fresh: trace["config"]["fresh"].as_bool().unwrap_or(false),
+            currency: trace["config"]["currency_on_demand"].as_bool().unwrap_or(false),
+        };
         let steps: Vec<Step> = trace["steps"]
             .as_array()
             .map(|a| a.iter().map(Step::from_json).collect())
@@ -736,7 +845,7 @@ impl Prop for C06 {
         } else {
             "runs.fault-free"
         });
-        exec_history(w, light, &mut src, &mut res);
+        exec_history(w, opts, &mut src, &mut res);
         res
     }
     fn shrink(&self, trace: &Value) -> Vec<Value> {
@@ -778,15 +887,19 @@ impl Prop for C06 {
             "probe.failing_input_printed_before_failing",
             "probe.follow_up_traffic_succeeded",
             "probe.repaired_or_new_module_imported",
+            "probe.currency_loaded_by_failing_input",
+            "probe.currency_input_succeeded",
             "runs.fault-free",
+            "runs.currency-on-demand",
+            "runs.from-scratch-sessions",
         ]
     }
     fn assumptions(&self) -> Vec<String> {
         vec![
             "Context::clone is faithful (the reference session tries each input on a clone); checked separately by C07 fork mode".into(),
             "observation channel is numbat's own Display of values, types, errors and `info` texts; source labels are never compared".into(),
-            "currency on-demand loading (CLI only) is not enabled: lazily loading the currency module on a failing input is intended behaviour".into(),
-            "now(), random(), args(), local time zone and currencies are never generated".into(),
+            "currency on-demand loading (CLI only) is enabled in 1 run of 16; there a failing input that triggered the load is, by design, equivalent to `use units::currencies` and the reference is brought to that state (the trigger is checked independently: the input must mention a currency identifier)".into(),
+            "now(), random(), args() and the local time zone are never generated; exchange rates are numbat's test stub (1.0)".into(),
         ]
     }
     fn extra_evidence(&self, _tier: Tier) -> Value {
